@@ -527,6 +527,9 @@ def run(ctx, rep, tier):
     structs.check_cull_policy(ctx, rep, "C01.n")
     from .shared import delegate
     delegate(ctx, rep, tier, "C08", ("C08.c",), "C01.o", "greedy case: the clause that runs is the one of maximal priority, each clause's priority looked up with its own key")
+    delegate(ctx, rep, tier, "C05", ("C05.l",), "C01.x", "an overflowing append transfers control to its handler AT the offending byte: the optimiser never puts a yield (early advance) "
+             "on a transition with an action that may leave without consuming - the handler would start one byte late")
+    delegate(ctx, rep, tier, "C07", ("C07.a",), "C01.y", "each match consumes exactly the bytes it describes: the character-class algebra regexes are split with is exact")
 
 
 # ---------------------------------------------------------------------------------------------------------------- C01.w
